@@ -6,7 +6,7 @@ REQUIRED = ["delivered_eq_range", "upper_end", "trimmed_keeps_range", "delivered
 LEAN_FILES = ["Rbp/Model/Driver.lean", "Rbp/Model/Run.lean", "Rbp/Proofs/Driver.lean"]
 RULE = ("black-box runs of the real binary vs the whole-program Lean model: bounded-exhaustive tip heights T=0..6 (quick; 0..9 thorough) x every accepted (--start,--end) incl. absent options, "
         "e below/at/above T, s=0, s=T, s>T x all five callbacks; plus sampled sparse high heights. Observables: height column of blocks-*.csv, names of the produced files, "
-        "`Processed blocks up to height N`, simplestats block count, opreturn heights, unspent/balances rows. non-trivial = at least one block delivered; distinct = distinct (T, s, e, callback) tuples")
+        "`Processed blocks up to height N`, simplestats block count, opreturn heights, unspent/balances rows, all four csvdump files (chains carry byte-identical coinbases at two heights, so a per-block output that depends on earlier blocks breaks the slice law). non-trivial = at least one block delivered; distinct = distinct (T, s, e, callback) tuples")
 ASSUMPTIONS = ["contiguous active chain 0..T (the property's domain); rejected option pairs (s >= e) are only checked to be rejected"]
 
 CALLBACKS = ["csvdump", "unspentcsvdump", "balances", "simplestats", "opreturn"]
@@ -15,7 +15,9 @@ CALLBACKS = ["csvdump", "unspentcsvdump", "balances", "simplestats", "opreturn"]
 def comparators(cb):
     c = [bb.cmp_exit, bb.cmp_names, bb.cmp_processed]
     if cb == "csvdump":
-        c += [bb.cmp_heights_csv, lambda s, r, m: bb.cmp_rows(s, r, m, only="blocks-")]
+        # all four files: the slice law (rows of a range = slice of the whole-chain rows) is proved for the model (slice_csv),
+        # so equality with the model for every (s, e) is the slice law for the implementation
+        c += [bb.cmp_heights_csv, bb.cmp_rows]
     elif cb in ("unspentcsvdump", "balances"):
         c += [bb.cmp_rows]
     elif cb == "opreturn":
@@ -45,6 +47,14 @@ def correspondence(ctx):
     for T in range(0, maxT + 1):
         coin = ["bitcoin", "litecoin", "testnet3", "dogecoin"][T % 4]
         blocks = GC.gen_chain(r, coin, T + 1, max_txs=2, max_io=2, scripts=scripts, auxpow_mix=False)
+        if T >= 3:
+            # byte-identical coinbases at two heights (as on the real chain before BIP30): per-block output must not depend on
+            # what earlier blocks — inside or outside the range — contained
+            from .. import gen_history as GH
+            blocks[T - 1].txs[0] = blocks[1].txs[0]
+            if T >= 5:
+                blocks[4].txs[0] = blocks[0].txs[0]
+            GH.link(blocks)
         base = K.Scenario(coin=coin)
         GC.simple_layout(base, blocks, per_file=r.choice([None, 1, 2, 3]))
         sd = bb.SharedDir(base)
